@@ -178,3 +178,19 @@ def report_hist_diff(rep, rec, key, queries=False):
                       'deformed the same way (stale cache)' % (rec['tag'], ', '.join(d)),
                       {'instance': key, 'history': 'construct; read all cached properties; deform(%s, axis=%s)'
                        % (rec['deformation'], rec['axis']), 'differs': d})
+
+
+def report_cross_class(rep, outdir, fields):
+    """CROSS.json of the dump: classes of one size built one after the other in one process must report what they report alone.
+    fields: which differences are this property's business."""
+    p = os.path.join(outdir, 'CROSS.json')
+    if not os.path.exists(p):
+        return
+    for c in json.load(open(p)):
+        d = [f for f in c['differs'] if f in fields]
+        rep.case(('cross-class', c['cls'], tuple(c['size']), tuple(c['history'])), True)
+        if d:
+            key = {'cls': c['cls'], 'size': 'x'.join(map(str, c['size'])), 'deformation': 'none', 'axis': 'default', 'site': 'cross-class-history'}
+            rep.violation(key, '%s%s built after %s in one process reports different %s (%s) than alone (%s)'
+                          % (c['cls'], tuple(c['size']), ' -> '.join(c['history'][:-1]) or 'nothing', ', '.join(d), c['got'], c['alone']),
+                          {'instance': key, 'history': c['history'], 'differs': d, 'got': c['got'], 'alone': c['alone']})
